@@ -29,7 +29,7 @@ Xffs == {<<>>} \cup {<<x>> : x \in Fwd} \cup {<<x, y>> : x \in Fwd, y \in {A("p"
 
 HostQs == [tokenAuth : BOOLEAN, sel : Sels, hosts : HostLists, user : Users, name : Names, port : Ports,
            tokHost : {Join(<<"H1">>, "PA"), Join(<<"H127", "7">>, "PA"), Join(<<"H6">>, "PA"), Join(<<"H1">>, "PB")},
-           verifyIp : {TRUE}, tokAddr : {A("a", "a")}, xff : {<<>>}, peer : {A("a", "a")}]
+           verifyIp : BOOLEAN, tokAddr : {A("a", "a")}, xff : {<<>>}, peer : {A("a", "a")}]
 AddrQs == [tokenAuth : BOOLEAN, sel : {"roundrobin", "any"}, hosts : {<<E1>>}, user : {<<"7">>}, name : {<<"H1">>}, port : {"PA"},
            tokHost : {Join(<<"H1">>, "PA")},
            verifyIp : BOOLEAN, tokAddr : Fwd, xff : Xffs, peer : Addrs]
